@@ -799,6 +799,16 @@ func refPoly(e ast.Expr) (Poly, error) {
 		case token.SHR:
 			return pAtom("Shr(" + a.String() + "," + b.String() + ")"), nil
 		}
+	case *ast.IndexExpr:
+		b, err := refPoly(x.X)
+		if err != nil {
+			return nil, err
+		}
+		i, err := refPoly(x.Index)
+		if err != nil {
+			return nil, err
+		}
+		return pAtom(b.asAtom() + "[" + i.String() + "]"), nil
 	case *ast.CallExpr:
 		id, ok := x.Fun.(*ast.Ident)
 		if !ok {
